@@ -18,6 +18,7 @@ import (
 const (
 	MarkBegin = "/VERIF_C10_MARK_BEGIN"
 	MarkEnd   = "/VERIF_C10_MARK_END"
+	MarkOp    = "/VERIF_C10_MARK_OP" // before every operation of the history
 )
 
 // LockMainThread must be called from an init function of the main package:
@@ -53,8 +54,13 @@ func ErrName(err error) string {
 }
 
 // Do executes one operation on the store.
-func Do(ctx context.Context, st *oci.Store, s *Script, o Op) error {
+func Do(ctx context.Context, st *oci.Store, s *Script, o Op, dir string) error {
 	switch o.Kind {
+	case "gc":
+		return st.GC(ctx)
+	case "reopen":
+		_, err := oci.New(dir)
+		return err
 	case "push":
 		b := s.Blob(o.Blob)
 		return st.Push(ctx, Desc(b), bytes.NewReader(b.Content()))
@@ -97,19 +103,28 @@ func ChildMain(dir, scriptPath string) int {
 		_ = s.Blobs[i].Content()
 	}
 	ctx := context.Background()
+	if s.Final.Kind == "init" {
+		// the operation under test is the initialisation itself
+		mark(MarkBegin)
+		_, err := oci.New(dir)
+		mark(MarkEnd)
+		os.Stdout.WriteString("F init " + ErrName(err) + "\n")
+		return 0
+	}
 	st, err := oci.New(dir)
 	if err != nil {
 		fmt.Println("CHILD-ERROR new:", err)
 		return 4
 	}
-	st.AutoGC = false
+	st.AutoGC = s.AutoGC
 	out := ""
 	for _, o := range s.History {
-		out += "H " + o.String() + " " + ErrName(Do(ctx, st, s, o)) + "\n"
+		mark(MarkOp)
+		out += "H " + o.String() + " " + ErrName(Do(ctx, st, s, o, dir)) + "\n"
 	}
 	os.Stdout.WriteString(out)
 	mark(MarkBegin)
-	err = Do(ctx, st, s, s.Final)
+	err = Do(ctx, st, s, s.Final, dir)
 	mark(MarkEnd)
 	os.Stdout.WriteString("F " + s.Final.String() + " " + ErrName(err) + "\n")
 	return 0
